@@ -30,6 +30,9 @@ CHECKS = {
     "C09": ("brute-force unrolled joint table as reference model for every public plated sum-product entry point; error-behaviour monitor for pedantic mode",
             "Random and exhaustively enumerated tiny plated factor graphs are eliminated through sum_product, one- and two-call partial_sum_product, the modified/dynamic variants with empty Markov steps, plated einsum, pedantic mode and integer plate scales, and compared at every kept point with the table obtained by replicating variables per plate index. Exploration.",
             "trusted: the unrolling oracle in fv/checks/c09.py; two-call splits restricted to those that denote the same unrolled model; kept plates are not listed in plate_to_step", "DESIGN.md §6 C09"),
+    "C10": ("explicit left-to-right semiring fold (numpy) as reference model for every Markov-product entry point; brute-force unrolling and naive counterpart for lagged models",
+            "Random transitions over all durations 1..12, state pairs, batch inputs, input orders and semirings are run through sequential/naive/mixed (every num_segments) products, MarkovProduct eager, lazy+reinterpret and renamed, with optional real parameter; lagged models through sarkka_bilmes_product with several period counts, against the naive variant and an unrolled fold. Exploration.",
+            "trusted: numpy/scipy semiring fold in fv/checks/c10.py", "DESIGN.md §6 C10"),
     "C15": ("runtime oracle over op-table axioms on edge grids; scalar/0-d/array differential; NaN monitor on safe ops",
             "Every published table entry and every catalogue op is executed on an edge-value grid crossed with random values, shapes and operand orders; numpy/math/scipy arithmetic is the independent oracle. Exploration: held on the grid that was run, nothing beyond.",
             "trusted: numpy/scipy/math arithmetic; carriers as stated in the property (non-negative for max/min with mul, booleans for and/or)", "DESIGN.md §6 C15"),
